@@ -46,6 +46,9 @@ class Engine:
         # concrete (instantiable) node classes; ConfigNode itself is abstract (type deduction), as are the markers
         self.instance_fields = self._scan_instance_fields()
         self.maybe_missing_fields = {'_func', '_delete', '_children'}
+        self.class_fields = self._scan_class_fields()
+        self.maybe_foreign_fields = {'stages', 'builder', 'filenames', 'ref_point'}
+        self.property_names = {n for c in self.repo.classes.values() for n, f in c.methods.items() if f.kind in ('property', 'staticproperty')}
         self.external_effects = {}
         self.witness_fields = {}
         self.field_types = {'_children': 'dict', '_metadata': 'dict', '_eval_stack': 'list', '_eval_cache': 'dict', '_eval_cache_id': 'dict', 'stages': 'list',
@@ -107,6 +110,27 @@ class Engine:
             for n in ast.walk(m.tree):
                 if isinstance(n, ast.Attribute) and isinstance(n.ctx, ast.Store) and isinstance(n.value, ast.Name):
                     out.add(n.attr)
+        return out
+
+    def _scan_class_fields(self):
+        """attribute names a class (or one of its bases) assigns on `self` / on a freshly created instance"""
+        own = {}
+        for cname, ci in self.repo.classes.items():
+            names = set()
+            for fi in list(ci.methods.values()) + list(ci.ayns.values()):
+                if fi.node is None:
+                    continue
+                for n in ast.walk(fi.node):
+                    if isinstance(n, ast.Attribute) and isinstance(n.ctx, ast.Store) and isinstance(n.value, ast.Name) and n.value.id in ('self', 'new', 'ret'):
+                        names.add(n.attr)
+            own[cname] = names
+        out = {}
+        for cname, ci in self.repo.classes.items():
+            acc = set()
+            for k in ci.mro:
+                if isinstance(k, ClassInfo):
+                    acc |= own.get(k.name, set())
+            out[cname] = acc
         return out
 
     def is_descriptor_everywhere(self, name):
